@@ -21,6 +21,7 @@ import (
 	"encoding/json"
 	"fmt"
 	"math"
+	"strings"
 
 	"github.com/buger/jsonparser"
 	"github.com/gogo/protobuf/proto"
@@ -44,6 +45,8 @@ type PrometheusPutResp struct {
 const (
 	NAME = "__name__"
 )
+
+var labelValueEscaper = strings.NewReplacer(`\`, `\\`, `"`, `\"`)
 
 func decodeWriteRequest(compressed []byte) (*prompb.WriteRequest, error) {
 	reqBuf, err := snappy.Decode(nil, compressed)
@@ -118,7 +121,8 @@ func HandlePutMetrics(compressed []byte, myid int64) (uint64, uint64, error) {
 				mName = []byte(l.Value)
 				continue
 			}
-			tagHolder.Insert(l.Name, []byte(l.Value), jsonparser.String)
+			// the tags holder takes string values as they are written in JSON
+			tagHolder.Insert(l.Name, []byte(labelValueEscaper.Replace(l.Value)), jsonparser.String)
 		}
 
 		for _, s := range ts.Samples {
